@@ -195,6 +195,8 @@ Section E2E.
   Hypothesis IterMax : N.of_nat iter < 9223372036854775808.
   Hypothesis Wsalt : wf_bytes salt = true.
   Hypothesis SNcomma : ~ In 44 (sc_snonce c).
+  (* optional extensions the server appends to its first message: nothing, or "," followed by anything *)
+  Hypothesis Ext : sc_ext c = [] \/ exists e, sc_ext c = 44 :: e.
   (* the channel: both ends report the same binding for a -PLUS mechanism; no binding otherwise *)
   Variables cbname cbdata : bytes.
   Hypothesis Chan :
@@ -239,7 +241,7 @@ Section E2E.
   Lemma e2e_server_first : forall r, is_nil r = false ->
     scram_server_first c db (gs2h ++ bs "n=" ++ uname ++ bs ",r=" ++ b64enc r) =
     let a := store H HMAC pw salt iter in
-    let sf := server_first (b64enc r) (sc_snonce c) a in
+    let sf := server_first (b64enc r) (sc_snonce c) a (sc_ext c) in
     Some ({| sx_acct := a; sx_gs2 := gs2h; sx_bare := bs "n=" ++ uname ++ bs ",r=" ++ b64enc r; sx_sfirst := sf;
              sx_combined := b64enc r ++ sc_snonce c |}, sf).
   Proof.
@@ -274,7 +276,8 @@ Section E2E.
   Let comb := cn ++ sn.
   Let bare := bs "n=" ++ uname ++ bs ",r=" ++ cn.
   Let acc := store H HMAC pw salt iter.
-  Let sfirst := server_first cn sn acc.
+  Let ext := sc_ext c.
+  Let sfirst := server_first cn sn acc ext.
   Let salted := Hi HMAC pw salt iter.
   Let wo := bs "c=" ++ c64 ++ bs ",r=" ++ comb.
   Let am := bare ++ bs "," ++ sfirst ++ bs "," ++ wo.
@@ -297,12 +300,17 @@ Section E2E.
   Proof.
     unfold sf_parse, sfirst, server_first. fold cn sn. cbn [sv_salt sv_iter acc store].
     destruct (atoi_dec (N.of_nat iter) IterMax) as [AT DC].
-    replace (bs "r=" ++ cn ++ sn ++ bs ",s=" ++ b64enc salt ++ bs ",i=" ++ dec_of_N (N.of_nat iter))
-      with ((bs "r=" ++ comb) ++ 44 :: ((bs "s=" ++ b64enc salt) ++ 44 :: (bs "i=" ++ dec_of_N (N.of_nat iter))))
+    replace (bs "r=" ++ cn ++ sn ++ bs ",s=" ++ b64enc salt ++ bs ",i=" ++ dec_of_N (N.of_nat iter) ++ ext)
+      with ((bs "r=" ++ comb) ++ 44 :: ((bs "s=" ++ b64enc salt) ++ 44 :: ((bs "i=" ++ dec_of_N (N.of_nat iter)) ++ ext)))
       by (unfold comb; rewrite <- !app_assoc; reflexivity).
     rewrite split_on_app by (apply in_app_not; [simpl; intuition discriminate|apply comb_no_comma]).
     rewrite split_on_app by (apply in_app_not; [simpl; intuition discriminate|apply b64enc_no_comma]).
-    rewrite split_on_none by (apply in_app_not; [simpl; intuition discriminate|exact DC]).
+    assert (NI : ~ In 44 (bs "i=" ++ dec_of_N (N.of_nat iter))) by (apply in_app_not; [simpl; intuition discriminate|exact DC]).
+    assert (S3 : exists tl, split_on 44 ((bs "i=" ++ dec_of_N (N.of_nat iter)) ++ ext) = (bs "i=" ++ dec_of_N (N.of_nat iter)) :: tl).
+    { unfold ext. destruct Ext as [-> | (e & ->)].
+      - rewrite app_nil_r, split_on_none by exact NI. eauto.
+      - rewrite split_on_app by exact NI. eauto. }
+    destruct S3 as (tl3 & ->).
     rewrite !is_prefix_app. cbn [andb].
     change (skipn 2 (bs "s=" ++ b64enc salt)) with (b64enc salt).
     change (skipn 2 (bs "i=" ++ dec_of_N (N.of_nat iter))) with (dec_of_N (N.of_nat iter)).
@@ -322,7 +330,7 @@ Section E2E.
   Lemma e2e_client_final : forall st,
     handle_server_first H HMAC hsize precis id (st_after_first st) sfirst = Some (st_after_final st false, cfinal).
   Proof.
-    intros st. unfold handle_server_first. rewrite e2e_sf_parse. rewrite gen_nonce_check.
+    intros st. unfold handle_server_first. rewrite e2e_sf_parse. rewrite gen_nonce_check, gen_authmsg_raw.
     cbn [ss_nonce st_after_first]. unfold cn at 1 2. rewrite (b64enc_nonnil r Rne).
     fold cn. unfold comb at 1. rewrite is_prefix_app. cbn [orb negb]. rewrite Ppass.
     rewrite (pbkdf2_is_Hi HMAC hsize pw salt iter HL Hpos Iter1). fold salted.
@@ -403,11 +411,11 @@ Section E2E.
                  ((st_after_first st', rest), Some (Some (gs2h ++ bare)))).
     { unfold scram_next. cbn [fst snd]. fold st'. rewrite (e2e_client_first st' r rest Rne). reflexivity. }
     rewrite N1. unfold bare, cn. rewrite (e2e_server_first r Rne). cbv zeta.
-    fold cn. fold bare. fold sn. fold acc. fold sfirst. fold comb.
+    fold cn. fold bare. fold sn. fold acc. fold ext. fold sfirst. fold comb.
     assert (N2 : scram_next H HMAC hsize precis cfg id (st_after_first st', rest) sfirst true =
                  ((st_after_final st' false, rest), Some (Some cfinal))).
     { unfold sfirst, server_first. rewrite next_on_first. cbn [fst snd].
-      change (bs "r=" ++ cn ++ sn ++ bs ",s=" ++ b64enc (sv_salt acc) ++ bs ",i=" ++ dec_of_N (N.of_nat (sv_iter acc))) with sfirst.
+      change (bs "r=" ++ cn ++ sn ++ bs ",s=" ++ b64enc (sv_salt acc) ++ bs ",i=" ++ dec_of_N (N.of_nat (sv_iter acc)) ++ ext) with sfirst.
       rewrite e2e_client_final. reflexivity. }
     cbv beta iota. rewrite N2. rewrite e2e_server_final.
     assert (N3 : scram_next H HMAC hsize precis cfg id (st_after_final st' false, rest) sfinal true =
@@ -427,14 +435,14 @@ Lemma e2e_accepted_ascii :
     precis (escape_name (sid_user id)) = Some (escape_name (sid_user id)) -> precis (sid_pass id) = Some (sid_pass id) ->
     db (sid_user id) = Some (store H HMAC (sid_pass id) salt iter) ->
     (1 <= iter)%nat -> N.of_nat iter < 9223372036854775808 -> wf_bytes salt = true ->
-    ~ In 44 (sc_snonce c) -> sid_plus id = false -> sc_plus c = false ->
+    ~ In 44 (sc_snonce c) -> (sc_ext c = [] \/ exists e, sc_ext c = 44 :: e) -> sid_plus id = false -> sc_plus c = false ->
     forall r : bytes, is_nil r = false ->
     forall (st : scram_state) (rest : list bytes),
       scram_dialogue H HMAC hsize precis cfg id c db (st, r :: rest) = true.
 Proof.
-  intros H HMAC hsize precis cfg id c db HL Hp HW salt iter PU PP DB I1 IM WS SN NP CP r RN st rest.
+  intros H HMAC hsize precis cfg id c db HL Hp HW salt iter PU PP DB I1 IM WS SN EX NP CP r RN st rest.
   apply (e2e_accepted H HMAC hsize precis cfg id c db HL Hp HW (escape_name (sid_user id)) (sid_user id) (sid_pass id) salt iter
-           PU (escape_no_comma _) (escape_unescape _) PP DB I1 IM WS SN [] []); auto.
+           PU (escape_no_comma _) (escape_unescape _) PP DB I1 IM WS SN EX [] []); auto.
   rewrite NP. auto.
 Qed.
 
